@@ -106,10 +106,31 @@ def run_lib(a):
                                                                                False)))
 
 
+class _AgedClock:
+    """stands in for the `time` module inside kernel_dg: the process has been alive for an hour
+    before its first analysis and idles for another hour between two analyses (a long-lived
+    process is part of 'what happened before'); the clock never jumps during an analysis"""
+
+    def __init__(self):
+        import time as _t
+        self._t = _t
+        self.offset = 0.0
+
+    def time(self):
+        return self._t.time() + self.offset
+
+    def __getattr__(self, name):
+        return getattr(self._t, name)
+
+
 def _child(conn, level, hist):
     try:
+        import osaca.semantics.kernel_dg as kd
+        clock = _AgedClock()
+        kd.time = clock
         out = []
         for name in hist:
+            clock.offset += 3600.0
             a = _A[name]
             rep = run_cli(a) if level == "cli" else run_lib(a)
             extra = None
